@@ -4,6 +4,7 @@ Bridge C07 → C01, part 3: the analyzer state the pipeline hands to the lineari
 for the bounds map and tightened domain that `Compile.linearize` actually computes.
 -/
 import Rooc.Proofs.LinBridgeShrink
+import Rooc.Proofs.LinBridgeInt
 import Rooc.Proofs.LinMain
 import Rooc.Compile
 
@@ -216,8 +217,120 @@ theorem fromDomain_anOK {domain : List (DomVar (Ext K))} (hok : DeclOK domain) (
   emptyInt d hd lo hi _ b hb _ := by
     rw [fromDomain_get tol hok.nodup hd] at hb; cases hb; rfl
 
-theorem analyzer_anOK {domain : List (DomVar (Ext K))} (hok : DeclOK domain) (cs : List (Constraint (Ext K)))
-    (tol : Ext K) (maxSteps : Nat) :
+/-- an entry after the rounding loop is either untouched or belongs to an integer variable of the list. -/
+theorem roundIntegerRanges_get_cases (name : String) : ∀ (dom : List (DomVar (Ext K))) (an : Analyzer (Ext K)),
+    AList.get? (an.roundIntegerRanges dom).variableBounds name = AList.get? an.variableBounds name ∨
+      ∃ d ∈ dom, (∃ lo hi, d.ty = .int lo hi) ∧ d.name = name
+  | [], an => Or.inl rfl
+  | d0 :: dom, an => by
+    have ih := roundIntegerRanges_get_cases name dom (an.roundStep d0)
+    simp only [Analyzer.roundIntegerRanges, List.foldl_cons] at ih ⊢
+    rcases ih with ih | ⟨d, hd, hi, hn⟩
+    · by_cases hn : d0.name = name
+      · by_cases hint : ∃ lo hi, d0.ty = .int lo hi
+        · exact Or.inr ⟨d0, List.mem_cons_self .., hint, hn⟩
+        · left; rw [ih, roundStep_nonint an d0 hint]
+      · left
+        rw [ih]
+        unfold Analyzer.roundStep
+        split
+        · split
+          · simp only [get?_insert, if_neg hn]
+          · rfl
+        · rfl
+    · exact Or.inr ⟨d, List.mem_cons_of_mem _ hd, hi, hn⟩
+
+theorem analyzer_anOK_int {domain : List (DomVar (Ext K))} (hok : DeclOK domain) (cs : List (Constraint (Ext K)))
+    {t : K} (h0 : 0 ≤ t) (h1 : t < 1) (maxSteps : Nat) :
+    AnOK domain (.fin t) ((Analyzer.analyze domain cs (.fin t) maxSteps).enforceable domain) := by
+  have hfd := fromDomain_anOK hok (.fin t : Ext K)
+  obtain ⟨hbv, hshr, hbool⟩ := analyze_shr domain cs (.fin t) maxSteps
+  obtain ⟨hnn, hsub⟩ := hshr hfd.noNaN
+  have htol : (Analyzer.analyze domain cs (.fin t) maxSteps).tolerance = .fin t := by
+    unfold Analyzer.analyze Analyzer.propagate
+    exact propagateLoop_tolerance _ _ _ _ _ _ _
+  obtain ⟨hZ, hcase⟩ := enforceable_shape domain cs h0 h1 maxSteps hok.nodup
+  by_cases hreset : ((Analyzer.analyze domain cs (.fin t) maxSteps).detectedInfeasible ||
+      (Analyzer.analyze domain cs (.fin t) maxSteps).emptyIntegerRange domain) = true
+  · have he : (Analyzer.analyze domain cs (.fin t) maxSteps).enforceable domain =
+        { Analyzer.fromDomain domain (Analyzer.analyze domain cs (.fin t) maxSteps).tolerance with
+          detectedInfeasible := (Analyzer.analyze domain cs (.fin t) maxSteps).detectedInfeasible,
+          reachedIterationLimit := (Analyzer.analyze domain cs (.fin t) maxSteps).reachedIterationLimit } := by
+      unfold Analyzer.enforceable; rw [if_pos hreset]
+    rw [he, htol]
+    exact ⟨rfl, hfd.noNaN, hfd.inDecl, hfd.bool, hfd.emptyInt⟩
+  · have hI : RInv domain t ((Analyzer.analyze domain cs (.fin t) maxSteps).enforceable domain) := by
+      rcases hcase with h | h
+      · exact absurd h hreset
+      · exact h
+    have he : (Analyzer.analyze domain cs (.fin t) maxSteps).enforceable domain =
+        (Analyzer.analyze domain cs (.fin t) maxSteps).roundIntegerRanges domain := by
+      unfold Analyzer.enforceable; rw [if_neg hreset]
+    -- an entry of the rounded analyzer: untouched, or the integer entry of a declared integer variable
+    have hentry : ∀ name, AList.get? ((Analyzer.analyze domain cs (.fin t) maxSteps).enforceable domain).variableBounds name
+          = AList.get? (Analyzer.analyze domain cs (.fin t) maxSteps).variableBounds name ∨
+        ∃ d ∈ domain, ∃ lo hi, d.ty = .int lo hi ∧ d.name = name ∧ ∃ m1 m2 : Int,
+          AList.get? ((Analyzer.analyze domain cs (.fin t) maxSteps).enforceable domain).variableBounds name
+            = some ⟨.fin (m1 : K), .fin (m2 : K)⟩ ∧ lo ≤ m1 ∧ m2 ≤ hi := by
+      intro name
+      rcases roundIntegerRanges_get_cases name domain (Analyzer.analyze domain cs (.fin t) maxSteps) with h | ⟨d, hd, ⟨lo, hi, hty⟩, hn⟩
+      · left; rw [he]; exact h
+      · right
+        obtain ⟨m1, m2, hg, hb⟩ := hZ d hd lo hi hty
+        exact ⟨d, hd, lo, hi, hty, hn, m1, m2, by rw [← hn]; exact hg, hb⟩
+    refine ⟨by rw [enforceable_tol]; exact htol, ?_, ?_, ?_, ?_⟩
+    · intro name
+      rcases hentry name with h | ⟨d, hd, lo, hi, hty, hn, m1, m2, hg, _⟩
+      · have := hnn name
+        simpa [Analyzer.varBounds, h] using this
+      · simp [Analyzer.varBounds, hg, NoNaNB]
+    · intro d hd x hx
+      cases hty : d.ty with
+      | int lo hi =>
+        obtain ⟨m1, m2, hg, h1', h2'⟩ := hZ d hd lo hi hty
+        simp only [Analyzer.varBounds, hg, Option.getD_some] at hx
+        simp only [Bounds.ofVarType, mem_iff, a_ofInt, LB_fin, UB_fin] at hx ⊢
+        have e1 : ((lo : Int) : K) ≤ (m1 : K) := by exact_mod_cast h1'
+        have e2 : ((m2 : Int) : K) ≤ (hi : K) := by exact_mod_cast h2'
+        exact ⟨le_trans e1 hx.1, le_trans hx.2 e2⟩
+      | _ =>
+        rcases hentry d.name with h | ⟨d', hd', lo, hi, hty', hn, _⟩
+        · have hx' : Mem x (Analyzer.varBounds (Analyzer.analyze domain cs (.fin t) maxSteps).variableBounds d.name) := by
+            simpa [Analyzer.varBounds, h] using hx
+          have := hfd.inDecl d hd x (hsub d.name x hx')
+          rwa [hty] at this
+        · have := domvar_eq_of_name hok.nodup hd' hd hn
+          subst this; rw [hty'] at hty; cases hty
+    · intro d hd hb
+      rcases hentry d.name with h | ⟨d', hd', lo, hi, hty', hn, _⟩
+      · rw [h, hbool d.name (fromDomain_bool (.fin t) hd hb)]
+        exact hfd.bool d hd hb
+      · have := domvar_eq_of_name hok.nodup hd' hd hn
+        subst this; rw [hty'] at hb; cases hb
+    · intro d hd lo hi hty b hb hgt
+      exfalso
+      obtain ⟨m1, m2, hg, _⟩ := hZ d hd lo hi hty
+      rw [hg] at hb; cases hb
+      have hne := hI.ne d hd lo hi hty m1 m2 hg
+      rw [hI.tol, gt_round_fin] at hgt
+      simp only [decide_eq_true_eq] at hgt
+      omega
+
+/-- no `IntegerRange` variable is declared (then the rounding loop of `enforceable` does nothing). -/
+def NoIntVars (domain : List (DomVar (Ext K))) : Prop := ∀ d ∈ domain, ∀ lo hi, d.ty ≠ .int lo hi
+
+theorem roundIntegerRanges_noint : ∀ (dom : List (DomVar (Ext K))) (an : Analyzer (Ext K)), NoIntVars dom →
+    an.roundIntegerRanges dom = an
+  | [], _, _ => rfl
+  | d0 :: dom, an, h => by
+    have h0 : an.roundStep d0 = an :=
+      roundStep_nonint an d0 (fun ⟨lo, hi, hty⟩ => h d0 (List.mem_cons_self ..) lo hi hty)
+    have ih := roundIntegerRanges_noint dom an (fun d hd => h d (List.mem_cons_of_mem _ hd))
+    simp only [Analyzer.roundIntegerRanges, List.foldl_cons] at ih ⊢
+    rw [h0, ih]
+
+theorem analyzer_anOK_noint {domain : List (DomVar (Ext K))} (hok : DeclOK domain) (cs : List (Constraint (Ext K)))
+    (tol : Ext K) (maxSteps : Nat) (hni : NoIntVars domain) :
     AnOK domain tol ((Analyzer.analyze domain cs tol maxSteps).enforceable domain) := by
   have hfd := fromDomain_anOK hok tol
   obtain ⟨hbv, hshr, hbool⟩ := analyze_shr domain cs tol maxSteps
@@ -226,24 +339,25 @@ theorem analyzer_anOK {domain : List (DomVar (Ext K))} (hok : DeclOK domain) (cs
     unfold Analyzer.analyze Analyzer.propagate
     exact propagateLoop_tolerance _ _ _ _ _ _ _
   unfold Analyzer.enforceable
+  rw [roundIntegerRanges_noint domain _ hni]
   split
-  · rename_i hreset
-    rw [htol]
+  · rw [htol]
     exact ⟨rfl, hfd.noNaN, hfd.inDecl, hfd.bool, hfd.emptyInt⟩
-  · rename_i hkeep
-    simp only [Bool.or_eq_true, not_or, Bool.not_eq_true] at hkeep
-    refine ⟨htol, hnn, fun d hd x hx => hfd.inDecl d hd x (hsub d.name x hx), ?_, ?_⟩
+  · refine ⟨htol, hnn, fun d hd x hx => hfd.inDecl d hd x (hsub d.name x hx), ?_, ?_⟩
     · intro d hd hb
       rw [hbool d.name (fromDomain_bool tol hd hb)]
       exact hfd.bool d hd hb
-    · intro d hd lo hi hty b hb hgt
-      exfalso
-      have hempty := hkeep.2
-      simp only [Analyzer.emptyIntegerRange, List.any_eq_false] at hempty
-      have := hempty d hd
-      simp only [hty, hb] at this
-      rw [hgt] at this
-      exact absurd this (by simp)
+    · intro d hd lo hi hty
+      exact absurd hty (hni d hd lo hi)
+
+/-- the analyzer state of the pipeline, for every tolerance `0 ≤ t < 1`, or every `t` when no integer variable is
+declared. -/
+theorem analyzer_anOK {domain : List (DomVar (Ext K))} (hok : DeclOK domain) (cs : List (Constraint (Ext K)))
+    {t : K} (h0 : 0 ≤ t) (h1 : t < 1 ∨ NoIntVars domain) (maxSteps : Nat) :
+    AnOK domain (.fin t) ((Analyzer.analyze domain cs (.fin t) maxSteps).enforceable domain) := by
+  rcases h1 with h1 | h1
+  · exact analyzer_anOK_int hok cs h0 h1 maxSteps
+  · exact analyzer_anOK_noint hok cs _ maxSteps h1
 
 /-! ### `apply_to_domain` against the box -/
 
@@ -290,6 +404,45 @@ theorem LB_mono {a : Ext K} {x y : K} (h : LB a x) (hxy : x ≤ y) : LB a y := b
   cases a <;> simp_all [LB, Ext.le]; linarith
 theorem UB_mono {a : Ext K} {x y : K} (h : UB a y) (hxy : x ≤ y) : UB a x := by
   cases a <;> simp_all [UB, Ext.le]; linarith
+
+/-- **`enforceable_int_ranges_in_box`** — after `enforceable` (fix b9d407a) the range `apply_to_domain` publishes
+for an `IntegerRange` variable is its box: the hypothesis `IntRangesInBox` of the pipeline theorems holds for
+the analyzer the pipeline computes, for every tolerance `0 ≤ t < 1`. -/
+theorem enforceable_int_ranges_in_box {domain : List (DomVar (Ext K))} (hok : DeclOK domain)
+    (cs : List (Constraint (Ext K))) {t : K} (h0 : 0 ≤ t) (h1 : t < 1) (maxSteps : Nat) :
+    IntRangesInBox ((Analyzer.analyze domain cs (.fin t) maxSteps).enforceable domain) domain := by
+  obtain ⟨hZ, _⟩ := enforceable_shape domain cs h0 h1 maxSteps hok.nodup
+  have htol : ((Analyzer.analyze domain cs (.fin t) maxSteps).enforceable domain).tolerance = .fin t := by
+    rw [enforceable_tol]
+    unfold Analyzer.analyze Analyzer.propagate
+    exact propagateLoop_tolerance _ _ _ _ _ _ _
+  intro d hd lo hi hty b hb hgt
+  obtain ⟨m1, m2, hg, hl, hu⟩ := hZ d hd lo hi hty
+  rw [hg] at hb; cases hb
+  obtain ⟨hlo, hhi⟩ := hok.i32 d hd lo hi hty
+  rw [htol, gt_round_fin] at hgt
+  simp only [decide_eq_false_iff_not, not_lt] at hgt
+  rw [ceil_int_sub h0 h1, floor_int_add h0 h1] at hgt
+  have hr := round_fin (m1 : K) (m2 : K) t
+  simp only [Bounds.mk.injEq] at hr
+  rw [htol, hr.1, hr.2, ceil_int_sub h0 h1, floor_int_add h0 h1, toI32_int, toI32_int]
+  have e12 : m1 ≤ m2 := hgt
+  have clamp_id : ∀ m : Int, i32Min ≤ m → m ≤ i32Max → Ext.clampInt i32Min i32Max m = m := by
+    intro m ha hb
+    unfold Ext.clampInt
+    rw [if_neg (by omega), if_neg (by omega)]
+  have c1 : Ext.clampInt i32Min i32Max m1 = m1 := clamp_id m1 (by omega) (by omega)
+  have c2 : Ext.clampInt i32Min i32Max m2 = m2 := clamp_id m2 (by omega) (by omega)
+  rw [c1, c2]
+  have e : (m1 : K) ≤ (m2 : K) := by exact_mod_cast hgt
+  exact ⟨⟨by simp [Ext.le], by simpa [Ext.le] using e⟩, ⟨by simpa [Ext.le] using e, by simp [Ext.le]⟩⟩
+
+theorem intRangesInBox_pipeline {domain : List (DomVar (Ext K))} (hok : DeclOK domain)
+    (cs : List (Constraint (Ext K))) {t : K} (h0 : 0 ≤ t) (h1 : t < 1 ∨ NoIntVars domain) (maxSteps : Nat) :
+    IntRangesInBox ((Analyzer.analyze domain cs (.fin t) maxSteps).enforceable domain) domain := by
+  rcases h1 with h1 | h1
+  · exact enforceable_int_ranges_in_box hok cs h0 h1 maxSteps
+  · intro d hd lo hi hty; exact absurd hty (h1 d hd lo hi)
 
 /-- a value in the PUBLISHED domain of a variable lies in the analyzer's box for it. -/
 theorem applyToVar_enclosed {domain : List (DomVar (Ext K))} {tol : Ext K} {an : Analyzer (Ext K)}
@@ -524,7 +677,11 @@ theorem sound_pipeline {m : Model (Ext K)} {t : K} (ht : 0 ≤ t) (maxSteps : Na
     have ha' : eval ρ' c.lhs = some a := by rw [eval_congr c.lhs (fun x hx => hag x (hsc.lhs.2 x hx))]; exact ha
     have hb' : eval ρ' c.rhs = some b := by rw [eval_congr c.rhs (fun x hx => hag x (hsc.rhs.2 x hx))]; exact hb
     exact ⟨a, b, normalize_eval_frag hsc.lhs.1 hl ha', normalize_eval_frag hsc.rhs.1 hr hb', cmpHolds_of_cmpK hcmp⟩
-  have hA := analyzer_anOK hok cs (.fin t) maxSteps
+  have htolA : (Analyzer.analyze m.domain cs (.fin t) maxSteps).tolerance = .fin t := by
+    unfold Analyzer.analyze Analyzer.propagate
+    exact propagateLoop_tolerance _ _ _ _ _ _ _
+  have htolE : ((Analyzer.analyze m.domain cs (.fin t) maxSteps).enforceable m.domain).tolerance = .fin t := by
+    rw [enforceable_tol]; exact htolA
   have hbox0 : InBox ρ' (Analyzer.analyze m.domain cs (.fin t) maxSteps).variableBounds := by
     unfold Analyzer.analyze Analyzer.propagate
     exact propagateLoop_inBox cs hholds _ _ _ _ _ (fromDomain_inBox m.domain (.fin t) hdom)
@@ -532,13 +689,13 @@ theorem sound_pipeline {m : Model (Ext K)} {t : K} (ht : 0 ≤ t) (maxSteps : Na
     unfold Analyzer.enforceable
     split
     · exact fromDomain_inBox m.domain (Analyzer.analyze m.domain cs (.fin t) maxSteps).tolerance hdom
-    · exact hbox0
+    · exact roundIntegerRanges_inBox t ht m.domain _ htolA hdom hbox0
   have hpub : ∀ d' ∈ ((Analyzer.analyze m.domain cs (.fin t) maxSteps).enforceable m.domain).applyToDomain m.domain,
       InDomain d'.ty (ρ' d'.name) := by
     intro d' hd'
     simp only [Analyzer.applyToDomain, List.mem_map] at hd'
     obtain ⟨d, hdm, rfl⟩ := hd'
-    obtain ⟨h1, h2⟩ := applyToVar_inDomain _ d t hA.tol ht (hok.i32 d hdm) hbox (hdom d hdm)
+    obtain ⟨h1, h2⟩ := applyToVar_inDomain _ d t htolE ht (hok.i32 d hdm) hbox (hdom d hdm)
     rw [h1]; exact h2
   intro d' hd' hu
   have hsc : inScope m.domain d'.name := by
@@ -578,7 +735,7 @@ theorem fragModel_applyToDomain {m : Model (Ext K)} (an : Analyzer (Ext K)) (hm 
 /-- `DomRel` and `BoxEnforced` for the `b`, `d` the pipeline computes. -/
 theorem pipeline_hyps {m : Model (Ext K)} {t : K} (ht : 0 ≤ t) (maxSteps : Nat)
     (hm : FragModel true m m.domain) (hok : DeclOK m.domain) {an : Analyzer (Ext K)}
-    (han : pipelineAnalyzer m (.fin t) maxSteps = some an) (hint : IntRangesInBox an m.domain) :
+    (han : pipelineAnalyzer m (.fin t) maxSteps = some an) (ht1 : t < 1 ∨ NoIntVars m.domain) :
     DomRel m (an.applyToDomain m.domain) ∧
     BoxEnforced (Compile.toLinBounds an.variableBounds) (an.applyToDomain m.domain) := by
   unfold pipelineAnalyzer at han
@@ -587,7 +744,8 @@ theorem pipeline_hyps {m : Model (Ext K)} {t : K} (ht : 0 ≤ t) (maxSteps : Nat
   | some cs =>
     simp only [hcs, Option.map_some, Option.some.injEq] at han
     subst han
-    have hA := analyzer_anOK hok cs (.fin t) maxSteps
+    have hA := analyzer_anOK hok cs ht ht1 maxSteps
+    have hint := intRangesInBox_pipeline hok cs ht ht1 maxSteps
     refine ⟨⟨?_, tight_pipeline hA hint, sound_pipeline ht maxSteps hm hok hcs, ?_⟩,
       boxEnforced_pipeline hA hint hok.nodup⟩
     · have : (Analyzer.applyToDomain ((Analyzer.analyze m.domain cs (.fin t) maxSteps).enforceable m.domain)
@@ -601,11 +759,11 @@ theorem pipeline_hyps {m : Model (Ext K)} {t : K} (ht : 0 ≤ t) (maxSteps : Nat
 theorem compile_feasible_iff {m : Model (Ext K)} {t : K} (ht : 0 ≤ t) {maxSteps : Nat} {lm : LinModel (Ext K)}
     (h : Compile.linearize m (.fin t) maxSteps = .ok lm)
     (hm : FragModel true m m.domain) (hok : DeclOK m.domain)
-    (hint : ∀ an, pipelineAnalyzer m (.fin t) maxSteps = some an → IntRangesInBox an m.domain) (ρ : String → K) :
+    (ht1 : t < 1 ∨ NoIntVars m.domain) (ρ : String → K) :
     srcFeasible m ρ = true ↔
       ∃ ρ' : String → K, (∀ x, inScope m.domain x → ρ' x = ρ x) ∧ linFeasible lm ρ' = true := by
   obtain ⟨an, han, hlin⟩ := (compile_ok_iff m _ maxSteps lm).mp h
-  obtain ⟨hdom, hbox⟩ := pipeline_hyps ht maxSteps hm hok han (hint an han)
+  obtain ⟨hdom, hbox⟩ := pipeline_hyps ht maxSteps hm hok han ht1
   rw [pl_feasible_iff (fragModel_applyToDomain an hm) hdom hbox hlin ρ]
   constructor
   · rintro ⟨ρ', hag, hf⟩
@@ -616,14 +774,14 @@ theorem compile_feasible_iff {m : Model (Ext K)} {t : K} (ht : 0 ≤ t) {maxStep
 theorem compile_objective {m : Model (Ext K)} {t : K} (ht : 0 ≤ t) {maxSteps : Nat} {lm : LinModel (Ext K)}
     (h : Compile.linearize m (.fin t) maxSteps = .ok lm)
     (hm : FragModel true m m.domain) (hok : DeclOK m.domain)
-    (hint : ∀ an, pipelineAnalyzer m (.fin t) maxSteps = some an → IntRangesInBox an m.domain)
+    (ht1 : t < 1 ∨ NoIntVars m.domain)
     (ρ : String → K) (hs : srcFeasible m ρ = true) (v : K) (hv : eval ρ m.objective = some v) :
     (∀ ρ' : String → K, (∀ x, inScope m.domain x → ρ' x = ρ x) → linFeasible lm ρ' = true →
         ∃ w, linObjective lm ρ' = some w ∧ rel (objReq m) w v) ∧
     (∃ ρ' : String → K, (∀ x, inScope m.domain x → ρ' x = ρ x) ∧ linFeasible lm ρ' = true ∧
         linObjective lm ρ' = some v) := by
   obtain ⟨an, han, hlin⟩ := (compile_ok_iff m _ maxSteps lm).mp h
-  obtain ⟨hdom, hbox⟩ := pipeline_hyps ht maxSteps hm hok han (hint an han)
+  obtain ⟨hdom, hbox⟩ := pipeline_hyps ht maxSteps hm hok han ht1
   obtain ⟨h1, ρ', hag, hf, ho⟩ := pl_objective (fragModel_applyToDomain an hm) hdom hbox hlin ρ hs v hv
   refine ⟨fun ρ'' hag'' hf'' => h1 ρ'' (fun x hx => hag'' x ((inScope_applyToDomain an m.domain x).mp hx)) hf'',
     ρ', fun x hx => hag x ((inScope_applyToDomain an m.domain x).mpr hx), hf, ho⟩
